@@ -16,6 +16,7 @@ Open Scope N_scope.
 #[local] Arguments i_sl : simpl never.    #[local] Arguments i_std : simpl never.   #[local] Arguments i_haslen : simpl never.
 #[local] Arguments cf_unsupp : simpl never. #[local] Arguments i_fields : simpl never. #[local] Arguments bits : simpl never.
 #[local] Arguments N.eqb : simpl never.   #[local] Arguments N.modulo : simpl never. #[local] Arguments N.pow : simpl never.
+#[local] Arguments N.eqb : simpl nomatch.
 
 Section Proofs.
   Variables EP mps spw : N.
@@ -341,6 +342,136 @@ Section Proofs.
 End Proofs.
 
 (* ---------------------------------------------------------------------------------------------- *)
+(* C07: the first answer of a fresh transfer is the one its request calls for, whatever happened before *)
+Section FirstAnswer.
+  Variables EP mps spw : N.
+  Variable skip : N -> bool.
+  Hypothesis skip_ext : forall f i, same_fieldsb f i = true -> skip i = skip f.
+  Notation step := (cx_step EP mps spw skip).
+
+  Definition hfresh (f : N) (x : cx_state) : Prop :=
+    i_std f = true -> x_h x = (if skip f then HIdle else dispatch f) /\ x_pid x = true /\ x_ea x = false /\ x_sp x = 0.
+
+  Lemma same_fields_eqs : forall f i, same_fieldsb f i = true ->
+    i_dirin f = i_dirin i /\ i_type f = i_type i /\ i_rcpt f = i_rcpt i /\ i_req f = i_req i /\
+    i_value f = i_value i /\ i_index f = i_index i /\ i_len f = i_len i.
+  Proof.
+    intros f i H. unfold same_fieldsb in H.
+    repeat (apply andb_true_iff in H as [H ?]).
+    apply eqb_prop in H.
+    repeat match goal with H : (_ =? _) = true |- _ => apply N.eqb_eq in H end. auto 10.
+  Qed.
+
+  Lemma fresh_answer : forall x f i, same_fieldsb f i = true -> skip i = skip f -> hfresh f x ->
+    ctl_ping EP (x_ctl x) i = false ->
+    let o := snd (step x i) in
+    o_dr o && o_sr o = false -> o_dr o || o_sr o = true ->
+    first_answer_ok (rclass_of skip f) i o = true.
+  Proof.
+    intros x f i Hsf Hsk Hfr Hpg.
+    destruct (same_fields_eqs f i Hsf) as (E1 & E2 & E3 & E4 & E5 & E6 & E7).
+    assert (Estd : i_std f = i_std i) by (unfold i_std; rewrite E2; reflexivity).
+    assert (Ecf : cf_unsupp f = cf_unsupp i) by (unfold cf_unsupp; rewrite E3, E5; reflexivity).
+    assert (Edp : dispatch f = dispatch i) by (unfold dispatch; rewrite E4, Ecf; reflexivity).
+    unfold rclass_of, hfresh in *. rewrite Estd, Edp, <- Hsk, E4, E3, E5 in *.
+    cbn [step cx_step snd o_dr o_sr]. rewrite Hpg. unfold claimed.
+    generalize (ctl_dr EP (x_ctl x) i) (ctl_sr EP (x_ctl x) i). intros dr sr Hex Hor.
+    destruct (i_std i) eqn:Es; cbn [negb orb andb].
+    2:{ unfold first_answer_ok. cbn. rewrite Hor. destruct (i_sack i); reflexivity. }
+    destruct (Hfr eq_refl) as (Hh & Hp & He & Hs). clear Hfr.
+    destruct (skip i) eqn:Ek; cbn [negb orb andb].
+    { unfold first_answer_ok. rewrite Hh. cbn. rewrite Hor. destruct (i_sack i); reflexivity. }
+    rewrite Hh, Hp, Hs. unfold dispatch, cf_unsupp, first_answer_ok.
+    destruct dr, sr; try discriminate;
+    (destruct (i_req i =? 0) eqn:R0; [|destruct (i_req i =? 1) eqn:R1; [|destruct (i_req i =? 5) eqn:R5;
+      [|destruct (i_req i =? 9) eqn:R9; [|destruct (i_req i =? 6) eqn:R6; [|destruct (i_req i =? 8) eqn:R8]]]]]);
+    repeat match goal with H : (i_req i =? _) = true |- _ => apply N.eqb_eq in H; rewrite H in *; clear H end;
+    cbn [N.eqb Pos.eqb orb andb negb];
+    try (destruct (i_rcpt i =? 2) eqn:Q1, (i_value i =? 0) eqn:Q2); cbn;
+    unfold cf_unsupp; rewrite ?Q1, ?Q2; cbn;
+    destruct (i_sack i), (i_sv i), (i_dv i), (i_dstall i); reflexivity.
+  Qed.
+
+  Definition inv2 (fr : bool) (s : sp_st) (x : cx_state) : Prop :=
+    fr = true -> exists f, s_cur s = Some f /\ hfresh f x.
+
+  Lemma dr_sr_excl : forall c i, ctl_dr EP c i && ctl_sr EP c i = false.
+  Proof. intros [] i; cbn; rewrite ?andb_false_r; reflexivity. Qed.
+
+  Lemma opp_no_ping : forall c i, onehot i = true -> ctl_dr EP c i || ctl_sr EP c i = true ->
+    ctl_ping EP c i = false.
+  Proof.
+    intros c i Hoh H. apply (onehot_cases) in Hoh. destruct Hoh as (_ & _ & _ & _ & H5 & _).
+    destruct c; cbn in *; try reflexivity; try discriminate.
+    destruct (i_out i), (i_ping i); destruct H5 as [K|K]; try discriminate K;
+      rewrite ?andb_false_r in *; try reflexivity; discriminate.
+  Qed.
+
+  Lemma own_next_idle : forall h i, i_ack i = false -> i_dstall i = false -> h_own_next h i false false = h.
+  Proof. intros h i Ha Hd. destruct h; cbn; rewrite ?Ha, ?Hd; reflexivity. Qed.
+
+  Lemma inv2_step : forall e s x fr i, inv EP e s x -> inv2 fr s x -> cx_env_ok e i = true ->
+    fr_ok EP skip s fr i (snd (step x i)) = true /\
+    inv2 (fr_next EP s fr i) (sp_next EP s i) (fst (step x i)).
+  Proof.
+    intros e s x fr i Hi H2 He.
+    destruct (outputs_match EP mps spw skip s x i (proj1 Hi)) as (Odr & Osr & Opg).
+    assert (Hoh : onehot i = true).
+    { unfold cx_env_ok in He. apply andb_true_iff in He as [_ He]. exact He. }
+    split.
+    - unfold fr_ok. destruct (s_cur s) as [f|] eqn:Ec; [|reflexivity].
+      unfold impb. destruct (fr && same_fieldsb f i && negb (i_rcv i) && (o_dr (snd (step x i)) || o_sr (snd (step x i)))) eqn:Ecd;
+        [|reflexivity]. cbn [negb orb].
+      repeat (apply andb_true_iff in Ecd as [Ecd ?]). subst fr.
+      destruct (H2 eq_refl) as (f' & Hf' & Hfr). rewrite Ec in Hf'. injection Hf' as <-.
+      apply fresh_answer; auto.
+      + apply opp_no_ping; [exact Hoh|]. cbn [step cx_step snd o_dr o_sr] in *. assumption.
+      + cbn [step cx_step snd o_dr o_sr]. apply dr_sr_excl.
+    - unfold inv2, fr_next. rewrite sp_next_cases.
+      destruct (ev_stok EP i) eqn:E1; [discriminate|].
+      destruct (ev_acc EP i) eqn:E2.
+      + intros _. exists i. split; [reflexivity|]. intro Hs.
+        assert (Hr : i_rcv i = true).
+        { unfold ev_acc in E2. apply andb_true_iff in E2 as [E2 _]. apply andb_true_iff in E2 as [_ E2]. exact E2. }
+        cbn [step cx_step fst x_h x_pid x_ea x_sp]. rewrite Hs.
+        unfold h_next, h_pid_next, h_ea_next, h_sp_next. rewrite Hr. auto.
+      + destruct (s_cur s) as [f|] eqn:Ec; [|discriminate].
+        intro Hfr. repeat (apply andb_true_iff in Hfr as [Hfr ?]). subst fr.
+        repeat match goal with H : negb _ = true |- _ => apply negb_true_iff in H end.
+        destruct (H2 eq_refl) as (f' & Hf' & Hh). rewrite Ec in Hf'. injection Hf' as <-.
+        exists f. split; [reflexivity|]. intro Hs. destruct (Hh Hs) as (A & B & C & D).
+        match goal with H : same_fieldsb f i = true |- _ => destruct (same_fields_eqs f i H) as (_ & E2' & _) end.
+        assert (Hsi : i_std i = true) by (unfold i_std in *; rewrite <- E2'; exact Hs).
+        match goal with H : sp_dr EP s i || sp_sr EP s i = false |- _ => apply orb_false_iff in H as [Hdr Hsr] end.
+        cbn [step cx_step snd o_dr o_sr] in Odr, Osr. rewrite Hdr in Odr. rewrite Hsr in Osr.
+        cbn [step cx_step fst x_h x_pid x_ea x_sp]. rewrite Hsi, Odr, Osr.
+        unfold h_next, h_pid_next, h_ea_next, h_sp_next.
+        match goal with H : i_rcv i = false |- _ => rewrite H end.
+        rewrite own_next_idle by assumption.
+        match goal with H : i_ack i = false |- _ => rewrite H end.
+        match goal with H : i_dstall i = false |- _ => rewrite H end.
+        rewrite A, B, C, D. cbn [andb].
+        destruct (if skip f then HIdle else dispatch f); auto.
+  Qed.
+
+  Lemma fresh_along_run : forall tr e s x fr, inv EP e s x -> inv2 fr s x -> cx_env_trace e tr = true ->
+    fresh_along EP skip s fr tr (xrun step x tr) = true.
+  Proof.
+    induction tr as [|i t IH]; intros e s x fr Hi H2 He; cbn [xrun fresh_along]; [reflexivity|].
+    cbn [cx_env_trace] in He. apply andb_true_iff in He as [He Ht].
+    destruct (inv2_step e s x fr i Hi H2 He) as [A B].
+    pose proof (inv_step EP mps spw skip e s x i Hi He) as Hn.
+    destruct (step x i) as [x' o]. cbn [fst snd] in *. rewrite A. cbn [andb]. eapply IH; eassumption.
+  Qed.
+
+  Theorem first_answers_fresh : forall tr, cx_env_trace cx_env0 tr = true ->
+    fresh_along EP skip sp0 false tr (xrun step cx_init tr) = true.
+  Proof.
+    intros tr H. apply (fresh_along_run tr cx_env0 sp0 cx_init false); [apply inv_init | discriminate | exact H].
+  Qed.
+End FirstAnswer.
+
+(* ---------------------------------------------------------------------------------------------- *)
 (* packing lemmas for the lock-step obligations and their corollaries *)
 Definition out_wf (o : cx_out) : Prop := o_pid o < 4 /\ o_na o < 128 /\ o_nc o < 256 /\ o_halt o < 64.
 
@@ -406,4 +537,30 @@ Proof.
   repeat (rewrite pk_div by first [apply cs_code_lt | apply hs_code_lt | apply b2n_lt]).
   repeat (rewrite pk_mod by first [apply cs_code_lt | apply hs_code_lt | apply b2n_lt]).
   rewrite cs_of_code, hs_of_code, !nb_b2n. reflexivity.
+Qed.
+
+(* the executable form of the per-cycle specification *)
+Lemma cyc_okb_iff : forall EP s i o, cyc_okb EP s i o = true <-> cyc_ok EP s i o.
+Proof.
+  intros EP s i o. unfold cyc_okb, cyc_ok, impb.
+  generalize (sp_dr EP s i) (sp_sr EP s i) (sp_ping EP s i). intros a b c.
+  destruct (o_dr o), (o_sr o), (o_ds o), (o_ss o), a, b; cbn; try (split; [discriminate | intuition congruence]);
+  destruct (o_txv o), (i_dv i), (i_sv i); cbn; try (split; [discriminate | intuition congruence]);
+  destruct (o_stall o), (i_dstall i); cbn; try (split; [discriminate | intuition congruence]);
+  destruct (o_ack o), (i_sack i), c; cbn; try (split; [discriminate | intuition congruence]);
+  destruct (o_nak o); cbn; try (split; [discriminate | intuition congruence]);
+  destruct (o_ac o), (o_cc o), (i_ack i); cbn; try (split; [discriminate | intuition congruence]);
+  try (split; [intros _; intuition congruence | reflexivity]);
+  destruct (o_halt o =? 0) eqn:E; cbn;
+    try (apply N.eqb_eq in E; split; [intros _; intuition congruence | reflexivity]);
+    apply N.eqb_neq in E; split; try discriminate; try (intros _; intuition congruence); intuition congruence.
+Qed.
+
+Lemma skip_none_ext : forall f i, same_fieldsb f i = true -> skip_none i = skip_none f.
+Proof. reflexivity. Qed.
+Lemma skip_req_ext : forall r f i, same_fieldsb f i = true -> skip_req r i = skip_req r f.
+Proof.
+  intros r f i H. unfold skip_req. unfold same_fieldsb in H.
+  repeat (apply andb_true_iff in H as [H ?]).
+  match goal with K : (i_req f =? i_req i) = true |- _ => apply N.eqb_eq in K; rewrite K end. reflexivity.
 Qed.
